@@ -354,11 +354,13 @@ type World struct {
 	registered   bool
 	registerFail bool
 	inNew        bool
-	opScans      int
-	opFetch      int
-	sched        *Sched          // the scheduler of the running Index call's scanner goroutines, if any
-	callCtx      context.Context // the caller's context of the running Index call
-	ph           *phase          // coalescer synchronisation of the running Index call
+	// CtorFailInIndex > 0: the CtorFailInIndex-th scanner-constructor call made during Index calls (by coalesce) fails
+	CtorFailInIndex int
+	opScans         int
+	opFetch         int
+	sched           *Sched          // the scheduler of the running Index call's scanner goroutines, if any
+	callCtx         context.Context // the caller's context of the running Index call
+	ph              *phase          // coalescer synchronisation of the running Index call
 }
 
 // phase orders the stub coalescers of one Index call: in the schedule the
@@ -900,6 +902,14 @@ func (w *World) ctor() error {
 	w.mu.Lock()
 	defer w.mu.Unlock()
 	if !w.inNew {
+		// during Index: coalesce calls the constructors again
+		if w.active && w.CtorFailInIndex > 0 {
+			w.CtorFailInIndex--
+			if w.CtorFailInIndex == 0 {
+				w.failed = true
+				return errors.New("stub ecosystem: scanner constructor failed")
+			}
+		}
 		return nil
 	}
 	k := w.ctorCalls
